@@ -20,13 +20,13 @@ RULE = ('every filter value of the closed universe (atoms, operator objects, lis
         'least one recorded value matches and at least one does not')
 ASSUMPTIONS = ['reference matcher written from the README/docstring: list=any, operator=Python comparison where defined else no match, '
                'missing/None matches only a None alternative, str filter=fnmatch against str values only, otherwise ==',
-               'operator objects whose value is None are outside the universe (documentation silent)']
+               'operator objects compare with Python semantics where the comparison is defined (None == None is a match for =), else no match']
 
 ATOMS = [None, True, False, 0, 1, 2.5, '', 'a', 'a*', '?b', '[ab]', {}, {'x': 1}]
-OPS = [{'operator': op, 'value': v} for op in ['=', '<', '<=', '>', '>=', '~'] for v in [0, 1, 'a', 2.5]]
+OPS = [{'operator': op, 'value': v} for op in ['=', '<', '<=', '>', '>=', '~'] for v in [0, 1, 'a', 2.5, None, {'x': 1}, [1, 'a']]]
 BASE = ATOMS + OPS
 ABSENT = '__absent__'
-VALUES = [ABSENT, None, True, False, 0, 1, 2, 1.5, '', 'a', 'ab', 'A', [1], ['a'], {'x': 1}, {'py/type': 'm.C'}]
+VALUES = [ABSENT, None, True, False, 0, 1, 2, 1.5, '', 'a', 'ab', 'A', 'b]', [1], ['a'], {'x': 1}, {'py/type': 'm.C'}]
 
 
 def bounds(tier):
@@ -117,19 +117,28 @@ def _eval(flt, md):
 _LIST = {}
 
 
-def _listing_probe(flt, md):
+def _listing_probe(flt, md, kind='mem'):
     """One odd and one normal recording in a real cassette; the listing must still answer."""
-    from playback.tape_cassettes.in_memory.in_memory_tape_cassette import InMemoryTapeCassette
     from playback.recordings.memory.memory_recording import MemoryRecording
-    c = InMemoryTapeCassette()
-    odd = MemoryRecording('Op/odd')
+    if kind == 'mem':
+        from playback.tape_cassettes.in_memory.in_memory_tape_cassette import InMemoryTapeCassette
+        c = InMemoryTapeCassette()
+        ids = ('Op/odd', 'Op/normal')
+    else:
+        from mc import fakes3
+        from playback.tape_cassettes.s3.s3_tape_cassette import S3TapeCassette
+        fakes3.install()
+        fakes3.new_store()
+        c = S3TapeCassette('bucket', key_prefix='', read_only=False)
+        ids = ('Op/20200101/odd', 'Op/20200101/normal')
+    odd = MemoryRecording(ids[0])
     odd.add_metadata(md)
-    norm = MemoryRecording('Op/normal')
+    norm = MemoryRecording(ids[1])
     norm.add_metadata({'k': 'a', 'k2': 1})
     c.save_recording(odd)
     c.save_recording(norm)
     try:
-        return ('ok', sorted(c.iter_recording_ids('Op', metadata=flt)))
+        return ('ok', sorted(x.split('/')[-1] for x in c.iter_recording_ids('Op', metadata=flt)))
     except Exception as e:
         return ('raise', type(e).__name__)
 
@@ -176,11 +185,12 @@ def run_case(case):
             viols.append(viol(sig, 'match_against_recorded_metadata(%r, %r)' % (flt, md), ('ok', exp), r1))
         # through a listing (single-key filters only; the two-key ones add nothing there)
         if 'f2' not in case and not (isinstance(a, dict) and 'py/type' in a):  # py/ dicts do not survive the serializer: direct matcher only
-            lr = _listing_probe(flt, md)
-            expl = ('ok', sorted((['Op/odd'] if exp else []) + (['Op/normal'] if ref_match(flt, {'k': 'a', 'k2': 1}) else [])))
-            if lr != expl:
-                viols.append(viol('listing:%s:filter=%s:recorded=%s' % (lr[0] if lr[0] != 'ok' else 'wrong-answer', kind(f), kind(a)),
-                                  'InMemoryTapeCassette.iter_recording_ids with filter %r over odd metadata %r' % (flt, md), expl, lr))
+            expl = ('ok', sorted((['odd'] if exp else []) + (['normal'] if ref_match(flt, {'k': 'a', 'k2': 1}) else [])))
+            for ck in ('mem', 's3'):
+                lr = _listing_probe(flt, md, ck)
+                if lr != expl:
+                    viols.append(viol('listing-%s:%s:filter=%s:recorded=%s' % (ck, lr[0] if lr[0] != 'ok' else 'wrong-answer', kind(f), kind(a)),
+                                      '%s cassette iter_recording_ids with filter %r over odd metadata %r' % (ck, flt, md), expl, lr))
     # one violation per signature per case is enough
     uniq = {}
     for v in viols:
